@@ -237,19 +237,17 @@ Section SUnzip.
            end
     end.
 
-  Definition sunzip : sink (A * B) :=
-    mksink (sboth (sready p0) (sready p1))
-           (fun ab s => match ssend p0 (fst ab) (fst s) with
-                        | None => None
-                        | Some (false, s0) => Some (false, (s0, snd s))
-                        | Some (true, s0) =>
-                          match ssend p1 (snd ab) (snd s) with
-                          | None => None
-                          | Some (ok, s1) => Some (ok, (s0, s1))
-                          end
-                        end)
-           (sboth (sflush p0) (sflush p1))
-           (sboth (sclose p0) (sclose p1)).
+  (* Unzip::start_send: sink_0.start_send(item.0)?; sink_1.start_send(item.1)? *)
+  Definition sunzip_send (ab : A * B) (s : SSt p0 * SSt p1) : option (bool * (SSt p0 * SSt p1)) :=
+    match ssend p0 (fst ab) (fst s) with
+    | None => None
+    | Some (false, s0) => Some (false, (s0, snd s))
+    | Some (true, s0) =>
+      match ssend p1 (snd ab) (snd s) with
+      | None => None
+      | Some (ok, s1) => Some (ok, (s0, s1))
+      end
+    end.
 End SUnzip.
 
 (* ------------------------------------------------------------------ lazy.rs: LazySink *)
@@ -309,9 +307,9 @@ Section SLazy.
     mksink (lz_op (sready nx)) lz_send (lz_op (sflush nx)) (lz_op (sclose nx)).
 End SLazy.
 
-(* ------------------------------------------------------------------ unzip.rs AFTER the proposed
-   close-once fix (fixes/C14_unzip_close_once.diff): poll_close skips a sink whose poll_close
-   already completed; poll_ready / poll_flush / start_send unchanged. *)
+(* ------------------------------------------------------------------ unzip.rs (as of /repo e255bb09846
+   "does not re-close a closed sink"): poll_close skips a sink whose poll_close already
+   completed.  The pre-fix poll_close lives in SinkHistoric.v for the historical witness. *)
 
 Section SUnzipOnce.
   Context {A B : Type} (p0 : sink A) (p1 : sink B).
@@ -336,10 +334,10 @@ Section SUnzipOnce.
   Definition lift_op (op : SSt p0 * SSt p1 -> res * (SSt p0 * SSt p1)) (s : suo_st) : res * suo_st :=
     let (r, s') := op (snd s) in (r, (fst s, s')).
 
-  Definition sunzip_once : sink (A * B) :=
+  Definition sunzip : sink (A * B) :=
     mksink (SSt := suo_st)
            (lift_op (@sboth _ _ p0 p1 (sready p0) (sready p1)))
-           (fun ab s => match ssend (sunzip p0 p1) ab (snd s) with
+           (fun ab s => match sunzip_send p0 p1 ab (snd s) with
                         | Some (ok, s') => Some (ok, (fst s, s')) | None => None end)
            (lift_op (@sboth _ _ p0 p1 (sflush p0) (sflush p1)))
            sclose_once.
